@@ -5,6 +5,7 @@ CONSTANTS Producers = {"p1", "p2"}
           RecheckThread = TRUE
           SafeEnv = TRUE
           Locks = TRUE
+          RealTime = FALSE
           NMsgs = 2
           ScriptSet = {"inproc", "inproc2"}
           Script2Set = {"none", "reset"}
